@@ -28,7 +28,7 @@ CHECKS = {
 
  "C03": dict(engine="sim", cat="exploration", design="3/C03",
    technique="runtime monitor: bytes written by the production client loop per submitted request compared with a reference encoder (or required to be empty); public constructor compared with its model over its argument space",
-   text="Requests over the boundary lattice (2000/2001, 125/126, 1968/1969/1976/1977, 123/124, 65535/65536 values, overflowing ranges) are submitted through Channel, CallbackSession and FfiChannel on MBAP and RTU sessions; the transport log between submission and completion must be exactly one reference frame, or empty with an error result. Frame length maxima are recorded. AddressRange::try_from is compared with its model on a stratified sample (quick) or the full 2^32 space (thorough).",
+   text="Requests over the boundary lattice (2000/2001, 125/126, 1968/1969/1976/1977, 123/124, 65535/65536 values, overflowing ranges) are submitted through Channel, CallbackSession and FfiChannel on MBAP and RTU sessions, half of the invalid ranges as struct literals that never went through AddressRange::try_from (the fields are public); the transport log between submission and completion must be exactly one reference frame, or empty with an error result. Frame length maxima are recorded. AddressRange::try_from is compared with its model on a stratified sample (quick) or the full 2^32 space (thorough).",
    note="Trusts the reference encoder; transaction ids may step by more than one only across requests the task itself rejected."),
  "C04": dict(engine="sim", cat="exploration", design="3/C04",
    technique="runtime monitor: request results compared with a reference response decoder over crafted reply PDUs (differential oracle), future- and callback-style result paths",
@@ -44,12 +44,12 @@ CHECKS = {
    note="The CRC reference is self-checked against published vectors at start-up. On a used link only the first corrupted frame after valid traffic is judged; what the receiver does with the bytes after a rejected frame is unspecified and not tested."),
  "C07": dict(engine="sim", cat="exploration", design="3/C07",
    technique="runtime monitoring under hostile input: panic hook + rustc overflow checks/debug assertions, transport poll counter (spin), virtual-time and wall-clock watchdogs (subprocess workers), follow-up session and follow-up request as liveness probes",
-   text="Grammar-aware mutations of valid traffic and raw random bytes, server and client roles, MBAP and RTU, all 36 decode levels with a formatting subscriber, random partitions; after the hostile stream the session must end on EOF/shutdown/handle drop, a fresh session on the same handler map must answer, the client handle must still complete requests and honour shutdown; a flood of stale frames must not postpone a request's completion beyond its deadline (bounded progress); a peer that keeps thousands of valid requests readable must not keep the session from seeing a shutdown command or a dropped handle (the scripted transport yields cooperatively like a real socket). Thorough adds a libFuzzer+AddressSanitizer target over the same harness entry point (coverage-guided byte streams, both roles) and a Miri run of the session loop on a sample.",
+   text="Grammar-aware mutations of valid traffic and raw random bytes, server and client roles, MBAP and RTU, all 36 decode levels with a formatting subscriber, random partitions; after the hostile stream the session must end on EOF/shutdown/handle drop, a fresh session on the same handler map must answer, the client handle must still complete requests and honour shutdown; a flood of stale frames must not postpone a request's completion beyond its deadline (bounded progress); a peer that keeps thousands of valid requests readable must not keep the session from seeing a shutdown command or a dropped handle (the scripted transport yields cooperatively like a real socket), and neither must a peer that sends requests and never reads the replies (the transport refuses every write). Thorough adds a libFuzzer+AddressSanitizer target over the same harness entry point (coverage-guided byte streams, both roles) and a Miri run of the session loop on a sample.",
    note="Panics that the runtime catches inside spawned tasks are reported through the panic hook; a sentinel completing with Shutdown although nobody shut the task down is a violation. A non-yielding loop is reported only after the case fails to finish alone twice with a 10x budget. Multi-session isolation on a real server is in C15."),
  "C10": dict(engine="sim", cat="exploration", design="3/C10",
    technique="runtime monitor: exactly-once completion log keyed by request id + sequential reference of the client semantics giving the allowed result classes, over random event scripts in virtual time",
-   text="Scripts of 5-40 events over submit (three API styles, several handles), reply variants, partial reply, garbage, read error, EOF, write error, enable, disable, set-decode, shutdown, clone/drop handle, task abort and time advances around the deadlines; every request must complete exactly once with a class the history allows (no-connection only while down, timeout only after the deadline, shutdown only when the task is gone or try_send failed), including sessions with a consecutive-timeout limit and connections that break in the middle of a reply (cut inside the header, right after it, inside the body). A serial leg (pty) checks what a request submitted while a lost port is being re-opened completes with. A back-pressure leg runs 2-41 concurrent submitters on queues of 1-4 slots against a peer that answers everything: every blocking sender (Channel, CallbackSession) must be served Ok with its own payload, only FfiChannel may refuse, transmitted frames == accepted requests. A net leg runs the production TCP task on a multi-thread runtime against a flaky loopback server with eight concurrent submitters (all three API styles), a controller toggling enable/disable and a final shutdown or handle drop, checking the schedule-independent part: one completion per request, Ok only with that request's own payload, Shutdown only once the task is going away.",
-   note="The outer reconnect loop is composed from hooked primitives in the same order as the production task (harness code); the production task is exercised black-box in C13/C14."),
+   text="Scripts of 5-40 events over submit (three API styles, several handles), reply variants, partial reply, garbage, read error, EOF, write error, enable, disable, set-decode, shutdown, clone/drop handle, task abort and time advances around the deadlines; every request must complete exactly once with a class the history allows (no-connection only while down, timeout only after the deadline, shutdown only when the task is gone or try_send failed), including sessions with a consecutive-timeout limit and connections that break in the middle of a reply (cut inside the header, right after it, inside the body). A serial leg (pty) checks what a request submitted while a lost port is being re-opened completes with. A peer-stops-reading leg (writes never complete): every request must still complete within its own timeout with an error, and shutdown / handle drop / disable must still end the session. A back-pressure leg runs 2-41 concurrent submitters on queues of 1-4 slots against a peer that answers everything: every blocking sender (Channel, CallbackSession) must be served Ok with its own payload, only FfiChannel may refuse, transmitted frames == accepted requests; two reads FfiChannel must refuse for their range must invoke the callback exactly once with an error other than Shutdown. A net leg runs the production TCP task on a multi-thread runtime against a flaky loopback server with eight concurrent submitters (all three API styles), a controller toggling enable/disable and a final shutdown or handle drop, checking the schedule-independent part: one completion per request, Ok only with that request's own payload, Shutdown only once the task is going away.",
+   note="KNOWN FINDING (known_findings.txt): a call FfiChannel refuses because the queue is full reports Shutdown through its callback while the task is alive; reported under a fixed signature, exit 0. The outer reconnect loop is composed from hooked primitives in the same order as the production task (harness code); the production task is exercised black-box in C13/C14."),
  "C11": dict(engine="sim", cat="exploration", design="3/C11",
    technique="runtime monitor: unique-payload history checker (every peer reply carries a unique serial) + write-log order / id-arithmetic / one-outstanding checks",
    text="Sessions of 1-200 queued reads and sessions of 70000 requests crossing the id wrap; peer sends genuine, stale-by-d, future-by-d, duplicate, only-stale, late or no replies and unsolicited frames carrying the next id while idle; set_decode_level / redundant enable commands are interleaved with the requests (they travel through the same queue and must not consume ids). A request's result must be the first frame with its id completely delivered while it was outstanding, else a timeout.",
@@ -70,7 +70,7 @@ CHECKS = {
  "C13": dict(engine="net", cat="exploration", design="3/C13",
    technique="online trace automaton on the connection-state listener stream with the listener callback used as a lock-step gate; accept counter, request-result and JoinHandle monitors",
    text="The real TCP client task runs against a harness-owned listener; at every state notification the task is parked while one user event (enable, disable, shutdown, drop handles, submit) and the environment for the next attempt (refused, accept+close, accept+garbage, accept+silent, served) are injected. Checked: legal transitions, expected successor when nothing is pending, Disabled after disable, no accept while Disabled, no-connection for requests submitted while down, a request handed over at a wait-state notification has completed when Connecting is announced (logical order, no clock), a shutdown queued right behind a disable still takes effect, Shutdown once and last, handles report shutdown, task terminates.",
-   note="Wall-clock only as watchdog. A request queued at the Connecting gate may legitimately be served when the connect completes in its first poll (measured and reported). A TLS client whose peer never completes the handshake is 'not connected': requests fail at once, disable is reported, shutdown / dropping the handles ends the task (defect D11 on the original tree, fixed). Serial (pty) legs run the PortState automaton on the serial client task (port open failures, shutdown / handle drop) and a port behind a symlink that opens, is disabled (the port must really be released: observed at the pty master), re-enabled, disappears and comes back (requests during the wait fail with no-connection, re-open observed from outside)."),
+   note="Wall-clock only as watchdog. A request queued at the Connecting gate may legitimately be served when the connect completes in its first poll (measured and reported). A TLS client whose peer never completes the handshake is 'not connected': requests fail at once, disable is reported, shutdown / dropping the handles ends the task (defect D11 on the original tree, fixed). Serial speeds 0 / 1 / u32::MAX on a pty must not kill the task. Serial (pty) legs run the PortState automaton on the serial client task (port open failures, shutdown / handle drop) and a port behind a symlink that opens, is disabled (the port must really be released: observed at the pty master), re-enabled, disappears and comes back (requests during the wait fail with no-connection, re-open observed from outside)."),
  "C14": dict(engine="net", cat="exploration", design="3/C14",
    technique="model comparison of the public strategy object over enumerated call sequences (panic = violation) + runtime monitor with a logging wrapper strategy on the real TCP client task (call-log grammar, announced delay == returned value, measured wait >= delay)",
    text="Strategy object: all (min,max) pairs of a lattice up to Duration::MAX, all sequences over {fail, disconnect, reset} up to length 7 (quick) / 9 (thorough) plus runs of 70/130 failures. Task level: a strategy saturated at Duration::MAX (delay announced, task responsive, shutdown honoured); outcome sequences of 2-10 over {refused, accepted then closed, accepted then garbage} with min 20 ms / max 150 ms, with enable/disable/decode-level commands issued during the waits (a command must not shorten or restart the wait); a quarter of the scripts run the TLS client task against the same plain-TCP peer, where every accepted connection fails inside the handshake and must count as a failed connect (doubling continues, no reset, no after_disconnect); the same monitor on the serial client (open retry on a pty that disappears) and the RTU server task (port retry); and, measured from outside at the pty master, the instant at which a lost port (symlink re-pointed to a second pty) is opened again by the serial client and by the RTU server: never earlier than the delay.",
